@@ -246,7 +246,24 @@ def run(chk):
             if t["k"] == "switch" and "def" in t["discr"].get("const", {}):
                 out.add(t["discr"]["const"]["def"])
         return out
-    wrefs, rrefs = refs(wb), refs(rb)
+    def side(b0):
+        """the body and the helpers of the same file it (transitively) calls: a flag word may be composed in a helper"""
+        out, todo = [b0], [b0]
+        while todo:
+            x = todo.pop()
+            for _, t_ in x.calls():
+                cb_ = f.bodies.get(t_["callee"].get("resolved") or "")
+                if cb_ is not None and cb_.file == b0.file and cb_ not in out and cb_.kind in ("fn", "method", "closure"):
+                    out.append(cb_)
+                    todo.append(cb_)
+            for cid_, cb_ in f.bodies.items():
+                if cb_.kind == "closure" and cb_.parent == x.id and cb_ not in out:
+                    out.append(cb_)
+                    todo.append(cb_)
+        return out
+    wside, rside = side(wb), side(rb)
+    wrefs = set().union(*[refs(x) for x in wside])
+    rrefs = set().union(*[refs(x) for x in rside])
     for nm in list(flags) + ["SHORT_DATA"]:
         full = [x for x in (wrefs | rrefs) if x.endswith("::" + nm)]
         ok = any(x.endswith("::" + nm) for x in wrefs) and any(x.endswith("::" + nm) for x in rrefs)
@@ -261,7 +278,7 @@ def run(chk):
                             if isinstance(v, dict) and v.get("const", {}).get("val") == val:
                                 return True
                 return False
-            ok = (any(x.endswith("::" + nm) for x in wrefs) or has_val(wb)) and (any(x.endswith("::" + nm) for x in rrefs) or has_val(rb))
+            ok = (any(x.endswith("::" + nm) for x in wrefs) or any(has_val(x) for x in wside)) and (any(x.endswith("::" + nm) for x in rrefs) or any(has_val(x) for x in rside))
         chk.obligation(ok)
         if not ok:
             chk.finding("IcyDraw|constant-one-sided|%s" % nm, rule="R-CHUNK-VOCAB", where="src/formats/icy_draw.rs", fn="IcyDraw", what="constant %s is not used by both writer and reader" % nm)
